@@ -282,20 +282,32 @@ def mon_intersect_voronoi(rng, tier):
     from hydrodiy.gis.grid import Grid, Catchment
     from props.common import acyclic_grids
     res = Result('C16 intersect weights = count x area ratio, each cell once, placed at the parent row/column; voronoi weights = nearest-point fractions summing to 1',
-                 '%d random catchments on grids up to 5x5 x coarse grids with cell-size ratio 1, 2, 4 and offsets; 1-6 voronoi points incl. ties' % (60 if tier == 'quick' else 600))
-    for (nr, nc, fd) in acyclic_grids(rng, tier, n=60 if tier == 'quick' else 600):
+                 '%d delineated catchments on grids up to 5x5 + dense cell sets on grids up to 12x12 x coarse grids with cell-size ratio 1, 1.5, 2, 2.5, 3, 4 and offsets; 1-6 voronoi points incl. ties' % (60 if tier == 'quick' else 600))
+    work = [(nr, nc, fd, None) for (nr, nc, fd) in acyclic_grids(rng, tier, n=60 if tier == 'quick' else 600)]
+    # dense cell sets on larger grids (the area attributes are assigned directly: the property quantifies over all cell sets, and
+    # delineation of small random flow grids gives small scattered catchments only)
+    for _ in range(25 if tier == 'quick' else 250):
+        nr, nc = rng.randint(2, 12), rng.randint(2, 12)
+        dens = rng.choice([0.5, 0.8, 1.0])
+        sel = sorted(c for c in range(nr * nc) if rng.random() < dens) or [0]
+        rng.shuffle(sel)
+        work.append((nr, nc, [0] * (nr * nc), sel))
+    for (nr, nc, fd, direct) in work:
         n = nr * nc
         g = make_flowdir(nr, nc, fd)
         ca = Catchment('c', g)
-        quiet(ca.delineate_area, rng.randrange(n), None, n + 2)
+        if direct is None:
+            quiet(ca.delineate_area, rng.randrange(n), None, n + 2)
+        else:
+            ca._idxcells_area = np.array(direct, dtype=np.int64); ca._idxcells_area_filled = ca._idxcells_area
         cells = [int(v) for v in ca.idxcells_area]
         if not cells:
             continue
         xy = g.cell2coord(cells)
-        for ratio in (1, 2, 4):
+        for ratio in (1, 2, 4, 1.5, 2.5, 3):
             csz = float(ratio)
-            gg = Grid('coarse', ncols=rng.randint(1, 3), nrows=rng.randint(1, 3), cellsize=csz, xllcorner=float(rng.randint(-2, 1)), yllcorner=float(rng.randint(-2, 1)))
-            res.case((nr, nc, tuple(fd), ratio, gg.ncols, gg.nrows, gg.xllcorner, gg.yllcorner))
+            gg = Grid('coarse', ncols=rng.randint(1, 3 if direct is None else 5), nrows=rng.randint(1, 3 if direct is None else 5), cellsize=csz, xllcorner=float(rng.randint(-2, 1)), yllcorner=float(rng.randint(-2, 1)))
+            res.case((nr, nc, tuple(fd), tuple(cells), ratio, gg.ncols, gg.nrows, gg.xllcorner, gg.yllcorner))
             inside = [(x, y) for x, y in xy if gg.xllcorner <= x < gg.xllcorner + gg.ncols * csz and gg.yllcorner <= y < gg.yllcorner + gg.nrows * csz]
             try:
                 area_grid, idx, w = quiet(ca.intersect, gg)
@@ -308,7 +320,7 @@ def mon_intersect_voronoi(rng, tier):
                 col = int(math.floor((x - gg.xllcorner) / csz)); row = gg.nrows - 1 - int(math.floor((y - gg.yllcorner) / csz))
                 exp[row * gg.ncols + col] = exp.get(row * gg.ncols + col, 0) + 1
             got = {int(i): float(v) for i, v in zip(idx, w)}
-            ok = len(idx) == len(set(int(i) for i in idx)) and set(got) == set(exp) and all(abs(got[k] - exp[k] / ratio ** 2) < 1e-12 for k in exp)
+            ok = len(idx) == len(set(int(i) for i in idx)) and set(got) == set(exp) and all(abs(got[k] - exp[k] / ratio ** 2) < 1e-9 for k in exp)
             ok = ok and abs(sum(w) * csz * csz - len(inside)) < 1e-9
             if ok and len(idx):
                 rc = gg.cell2rowcol(idx)
@@ -319,7 +331,7 @@ def mon_intersect_voronoi(rng, tier):
                 res.fail('intersect weights differ from count x area ratio', dict(nrows=nr, ncols=nc, flowdir=fd, cells=cells, coarse=[gg.nrows, gg.ncols, gg.xllcorner, gg.yllcorner, csz], got=got, expected=exp))
         for npts in (1, 2, 3, 6):
             pts = [[rng.choice([-0.5, 0.5, 1.5, 2.5, 1.0, 7.0]), rng.choice([-0.5, 0.5, 1.5, 2.5, 2.0])] for _ in range(npts)]
-            res.case((nr, nc, tuple(fd), tuple(map(tuple, pts))))
+            res.case((nr, nc, tuple(fd), tuple(cells), tuple(map(tuple, pts))))
             w = quiet(G.voronoi, ca, np.array(pts))
             cnt = [0] * npts
             for x, y in xy:
